@@ -7,6 +7,7 @@ import (
 	"net/url"
 	"path"
 	"reflect"
+	"runtime"
 	"strings"
 
 	"github.com/gobuffalo/flect/name"
@@ -105,11 +106,17 @@ func PathFor(in interface{}) (string, error) {
 }
 
 // textOf calls a value's own ToPath or ToParam method; ok is false when the
-// call panics.
+// method can not be called because its receiver is out of reach (a nil
+// pointer dereference, a value method called through a nil pointer). Any other panic is the method's own failure, and
+// stays one.
 func textOf(method func() string) (s string, ok bool) {
 	defer func() {
-		if recover() != nil {
-			s, ok = "", false
+		if r := recover(); r != nil {
+			if re, isRuntime := r.(runtime.Error); isRuntime && (strings.Contains(re.Error(), "nil pointer dereference") || strings.Contains(re.Error(), "called using nil")) {
+				s, ok = "", false
+				return
+			}
+			panic(r)
 		}
 	}()
 	return method(), true
